@@ -60,12 +60,17 @@ CCov(f, c) ==
   IF c.kind = "simple" THEN <<<<2 * c.u * c.u>>>>
   ELSE [i \in 1..2 |-> [j \in 1..2 |-> IF i = j THEN 2 * c.u[i] * c.u[i] ELSE c.h * c.u[i] * c.u[j]]]
 
+(* set-up of the parameters: fixing (also at exactly 0), limiting (also with a limit of exactly 0), start values *)
+Setups == [kind : {"fix"}, p : {1, 2}, v : {0, 2}] \cup [kind : {"limit"}, p : {1, 2}, lo : {0}, hi : {4}] \cup [kind : {"start"}, v : {<<2, 0>>, <<0, 3>>}]
+SetupForms == {"method", "wrapper", "yaml"}
+SAdmissible(f, st) == f \in SetupForms /\ (st.kind = "start" => f \in {"method", "wrapper"})
+
 VARIABLES left, right,     \* sequences of [item, form]
-          nsrc, ncon, act, obs
-vars == <<left, right, nsrc, ncon, act, obs>>
+          nsrc, ncon, nset, act, obs
+vars == <<left, right, nsrc, ncon, nset, act, obs>>
 Bounded(name) == TLCGet("level") <= MaxDepth /\ name \notin Off
 
-Init == left = <<>> /\ right = <<>> /\ nsrc = 0 /\ ncon = 0 /\ act = [name |-> "Init", data |-> D] /\ obs = [kind |-> "none"]
+Init == left = <<>> /\ right = <<>> /\ nsrc = 0 /\ ncon = 0 /\ nset = 0 /\ act = [name |-> "Init", data |-> D] /\ obs = [kind |-> "none"]
 
 (* the right-hand fit always uses the canonical form -- the explicit absolute covariance matrix -- so that every form is compared *)
 (* with the same partner and, transitively, with every other form                                                               *)
@@ -75,31 +80,44 @@ Declare(src, fl, fr) ==
   /\ Bounded("Declare") /\ src \in Sources /\ nsrc < 2
   /\ fl \in SourceForms /\ fr = Canonical(src) /\ fl # fr /\ Admissible(fl, src) /\ Admissible(fr, src)
   /\ (nsrc = 0 => src.h # 2)            \* the first source keeps the total covariance regular
+  \* the normal form of a model-relative source is taken at the default parameters: not together with fixed / start values
+  /\ (src.kind = "relm" => \A k \in DOMAIN left : left[k].item.kind \notin {"fix", "start"})
   /\ left' = Append(left, [item |-> src, form |-> fl]) /\ right' = Append(right, [item |-> src, form |-> fr])
   /\ nsrc' = nsrc + 1
   /\ act' = [name |-> "Declare", src |-> src, fl |-> fl, fr |-> fr] /\ obs' = [kind |-> "none"]
-  /\ UNCHANGED ncon
+  /\ UNCHANGED <<ncon, nset>>
 Constrain(c, fl, fr) ==
   /\ Bounded("Constrain") /\ c \in Constraints /\ ncon < 1
   /\ fl \in ConstraintForms /\ fr = CCanonical(c) /\ fl # fr /\ CAdmissible(fl, c) /\ CAdmissible(fr, c)
   /\ left' = Append(left, [item |-> c, form |-> fl]) /\ right' = Append(right, [item |-> c, form |-> fr])
   /\ ncon' = ncon + 1
   /\ act' = [name |-> "Constrain", c |-> c, fl |-> fl, fr |-> fr] /\ obs' = [kind |-> "none"]
-  /\ UNCHANGED nsrc
+  /\ UNCHANGED <<nsrc, nset>>
+SetUp(st, fl, fr) ==
+  /\ Bounded("SetUp") /\ st \in Setups /\ nset < 1
+  /\ fl \in SetupForms /\ fr = "method" /\ fl # fr /\ SAdmissible(fl, st)
+  /\ (st.kind \in {"fix", "start"} => \A k \in DOMAIN left : left[k].item.kind # "relm")
+  /\ left' = Append(left, [item |-> st, form |-> fl]) /\ right' = Append(right, [item |-> st, form |-> fr])
+  /\ nset' = nset + 1
+  /\ act' = [name |-> "SetUp", st |-> st, fl |-> fl, fr |-> fr] /\ obs' = [kind |-> "none"]
+  /\ UNCHANGED <<nsrc, ncon>>
 Compare ==
-  /\ Bounded("Compare") /\ nsrc > 0 /\ act.name # "Compare"
+  /\ Bounded("Compare") /\ (nsrc > 0 \/ "Declare" \in Off) /\ act.name # "Compare"
   /\ act' = [name |-> "Compare"] /\ obs' = [kind |-> "none"]
-  /\ UNCHANGED <<left, right, nsrc, ncon>>
-Next == (\E s \in Sources, fl, fr \in SourceForms : Declare(s, fl, fr)) \/ (\E c \in Constraints, fl, fr \in ConstraintForms : Constrain(c, fl, fr)) \/ Compare
+  /\ UNCHANGED <<left, right, nsrc, ncon, nset>>
+Next == (\E s \in Sources, fl, fr \in SourceForms : Declare(s, fl, fr)) \/ (\E c \in Constraints, fl, fr \in ConstraintForms : Constrain(c, fl, fr))
+        \/ (\E st \in Setups, fl, fr \in SetupForms : SetUp(st, fl, fr)) \/ Compare
 Spec == Init /\ [][Next]_vars
 
 -----------------------------------------------------------------------------
 IsSource(e) == e.item.kind \in {"abs", "rel", "relm"}
 Total(side) == FoldLeft(LAMBDA acc, e : IF IsSource(e) THEN Plus(acc, Cov(e.form, e.item)) ELSE acc, Zero, side)
-ConsOf(side) == SelectSeq(side, LAMBDA e : ~IsSource(e))
+IsCons(e) == e.item.kind \in {"simple", "matrix"}
+ConsOf(side) == SelectSeq(side, IsCons)
+SetupOf(side) == [k \in DOMAIN SelectSeq(side, LAMBDA e : ~IsSource(e) /\ ~IsCons(e)) |-> SelectSeq(side, LAMBDA e : ~IsSource(e) /\ ~IsCons(e))[k].item]
 ConsNormal(side) == [k \in DOMAIN ConsOf(side) |-> [v |-> ConsOf(side)[k].item.v, cov |-> CCov(ConsOf(side)[k].form, ConsOf(side)[k].item)]]
 
 (* C14 *)
-SidesDenoteTheSameProblem == Total(left) = Total(right) /\ ConsNormal(left) = ConsNormal(right)
+SidesDenoteTheSameProblem == Total(left) = Total(right) /\ ConsNormal(left) = ConsNormal(right) /\ SetupOf(left) = SetupOf(right)
 Symmetric == \A i, j \in 1..N : Total(left)[i][j] = Total(left)[j][i]
 =============================================================================
